@@ -113,7 +113,9 @@ void ceil_div_signed_small()
   if (b != 0)
   {
     // q is the ceiling iff q*b >= a > (q-1)*b for b > 0, and q*b <= a < (q-1)*b for b < 0
-    i64 const q{r.get_unsafe()}, A{a}, B{b};
+    // |q| <= 1024 and |b| <= 1024, so the products fit easily into 32 bits
+    i32 const q{r.get_unsafe()}, A{a}, B{b};
+    verif_assert(q >= -1024 && q <= 1024, "ceil_div_signed [-1024,1023]^2: |q| <= |a|");
     bool const ok{B > 0 ? (q * B >= A && (q - 1) * B < A) : (q * B <= A && (q - 1) * B > A)};
     verif_assert(ok, "ceil_div_signed [-1024,1023]^2: q = ceil(a/b) by the multiplication characterisation");
   }
